@@ -10,6 +10,7 @@ import (
 	"io"
 	"net"
 	"net/http"
+	"strings"
 	"sync"
 	"testing"
 	"time"
@@ -39,7 +40,7 @@ type Act struct {
 }
 
 type Case struct {
-	Engine   string   `json:"engine"` // tdc | pipe | reuse | doh | doq (real quic upstream against a loopback quic-go server)
+	Engine   string   `json:"engine"` // tdc | pipe | reuse | doh | doq (real quic upstream against a loopback quic-go server) | sock-<scheme> (real upstream over loopback sockets)
 	Datagram bool     `json:"datagram"`
 	IDs      []uint16 `json:"ids"` // caller IDs of the initial calls (collisions wanted)
 	Acts     []Act    `json:"acts"`
@@ -66,7 +67,7 @@ func genID(t *rapid.T, prev []uint16) uint16 {
 
 func genCase(t *rapid.T) Case {
 	var c Case
-	c.Engine = rapid.SampledFrom([]string{"tdc", "tdc", "pipe", "pipe", "reuse", "doh", "doq"}).Draw(t, "engine")
+	c.Engine = rapid.SampledFrom([]string{"tdc", "tdc", "tdc", "pipe", "pipe", "pipe", "reuse", "reuse", "doh", "doq", "sock-udp", "sock-tcp", "sock-tcp+pipeline", "sock-tls", "sock-tls+pipeline"}).Draw(t, "engine")
 	if c.Engine == "tdc" || c.Engine == "pipe" {
 		c.Datagram = rapid.Bool().Draw(t, "datagram")
 	}
@@ -86,10 +87,10 @@ func genCase(t *rapid.T) Case {
 		k := rapid.SampledFrom([]string{"deliver", "deliver", "deliver", "deliver", "dup", "stray", "cancel", "late", "start", "start", "dupnow", "racecancel"}).Draw(t, "k")
 		c.Acts = append(c.Acts, Act{K: k, J: rapid.IntRange(0, 255).Draw(t, "j")})
 	}
-	if c.Engine == "doq" && len(c.IDs) > 12 {
+	if (c.Engine == "doq" || strings.HasPrefix(c.Engine, "sock-")) && len(c.IDs) > 12 {
 		c.IDs = c.IDs[:12]
 	}
-	if !c.Datagram && c.Engine != "doh" && c.Engine != "doq" {
+	if !c.Datagram && c.Engine != "doh" && c.Engine != "doq" && !strings.HasPrefix(c.Engine, "sock-") {
 		c.Chunks = rapid.SampledFrom([][]int{nil, nil, {1}, {2, 1 << 20}, {3, 5, 700}}).Draw(t, "chunks")
 	}
 	return c
@@ -219,6 +220,109 @@ func (d *doqSrv) serveStream(st quic.Stream) {
 	}
 }
 
+// ---------------------------------------------------------------- real-socket loopback server (scripted)
+
+// sockSrv holds every query it receives (UDP datagrams, or frames on TCP/TLS connections)
+// until the script delivers the reply; replies go back on the socket/connection the query
+// came in on, in whatever order the script chooses.
+type sockSrv struct {
+	rt   *dohRT
+	udp  *net.UDPConn
+	tcp  net.Listener
+	port int
+}
+
+func newSockSrv(rt *dohRT, useTLS bool) (*sockSrv, error) {
+	for try := 0; try < 30; try++ {
+		uc, err := net.ListenUDP("udp", &net.UDPAddr{IP: net.IPv4(127, 0, 0, 1)})
+		if err != nil {
+			return nil, err
+		}
+		port := uc.LocalAddr().(*net.UDPAddr).Port
+		l, err := net.Listen("tcp", fmt.Sprintf("127.0.0.1:%d", port))
+		if err != nil {
+			uc.Close()
+			continue
+		}
+		if useTLS {
+			cert, err := utils.GenerateCertificate("c01.test")
+			if err != nil {
+				return nil, err
+			}
+			l = tls.NewListener(l, &tls.Config{Certificates: []tls.Certificate{cert}})
+		}
+		s := &sockSrv{rt: rt, udp: uc, tcp: l, port: port}
+		go s.serveUDP()
+		go s.serveTCP()
+		return s, nil
+	}
+	return nil, fmt.Errorf("no port")
+}
+
+func (s *sockSrv) Close() { s.udp.Close(); s.tcp.Close() }
+
+func (s *sockSrv) register(q []byte, send func([]byte)) {
+	name := peer.QName(q)
+	ch := make(chan []byte, 1)
+	s.rt.mu.Lock()
+	_, dup := s.rt.arrived[name]
+	if !dup {
+		s.rt.pending[name] = ch
+		s.rt.arrived[name] = q
+	}
+	s.rt.mu.Unlock()
+	if dup {
+		return // a retransmission: the server answers each query once
+	}
+	go func() {
+		select {
+		case body := <-ch:
+			send(body)
+		case <-time.After(30 * time.Second):
+		}
+	}()
+}
+
+func (s *sockSrv) serveUDP() {
+	buf := make([]byte, 65535)
+	for {
+		n, addr, err := s.udp.ReadFromUDP(buf)
+		if err != nil {
+			return
+		}
+		q := append([]byte(nil), buf[:n]...)
+		s.register(q, func(body []byte) { s.udp.WriteToUDP(body, addr) })
+	}
+}
+
+func (s *sockSrv) serveTCP() {
+	for {
+		c, err := s.tcp.Accept()
+		if err != nil {
+			return
+		}
+		go func() {
+			defer c.Close()
+			var wmu sync.Mutex
+			for {
+				hdr := make([]byte, 2)
+				if _, err := io.ReadFull(c, hdr); err != nil {
+					return
+				}
+				q := make([]byte, int(hdr[0])<<8|int(hdr[1]))
+				if _, err := io.ReadFull(c, q); err != nil {
+					return
+				}
+				s.register(q, func(body []byte) {
+					wmu.Lock()
+					c.Write(append([]byte{byte(len(body) >> 8), byte(len(body))}, body...))
+					wmu.Unlock()
+				})
+			}
+		}()
+	}
+}
+
 // ---------------------------------------------------------------- runner
 
 func runCase(c Case, ctx *hx.Ctx) *hx.Failure {
@@ -229,6 +333,20 @@ func runCase(c Case, ctx *hx.Ctx) *hx.Failure {
 	env := tx.NewEnv(c.Datagram)
 	env.OnDial = func(cn int, fc *fakenet.Conn) error { w.Install(cn, fc); return nil }
 	switch c.Engine {
+	case "sock-udp", "sock-tcp", "sock-tcp+pipeline", "sock-tls", "sock-tls+pipeline":
+		rt = &dohRT{book: w.Book, pending: map[string]chan []byte{}, arrived: map[string][]byte{}}
+		scheme := strings.TrimPrefix(c.Engine, "sock-")
+		srv, err := newSockSrv(rt, strings.HasPrefix(scheme, "tls"))
+		if err != nil {
+			ctx.Class("skipped:no-loopback-server")
+			return nil
+		}
+		defer srv.Close()
+		u, err := upstream.NewUpstream(fmt.Sprintf("%s://127.0.0.1:%d", scheme, srv.port), upstream.Opt{TLSConfig: &tls.Config{InsecureSkipVerify: true}})
+		if err != nil {
+			return hx.Failf("C01/harness", "upstream: %v", err)
+		}
+		eng = upEngine{u}
 	case "doq":
 		d, err := getDoq()
 		if err != nil {
